@@ -315,7 +315,7 @@ func judgeC19(c ReqCase) *Fail {
 }
 
 func genC19(t *rapid.T) ReqCase {
-	return mkReqCase(stepRequest(t, GenOpts{ValueMode: -1, BigTiers: true}, "anchoring", 1))
+	return mkReqCase(stepRequest(t, GenOpts{ValueMode: -1, BigTiers: true, ValueScales: true}, "anchoring", 1))
 }
 
 func init() { register("C19", "C19", 1, genC19, judgeC19) }
